@@ -38,6 +38,7 @@ class PybindWrapper:
         self.use_boost_serialization = use_boost_serialization
         self.ignore_classes = ignore_classes
         self._serializing_classes = []
+        self._submodules = []
         self.module_template = module_template
         self.python_keywords = [
             'lambda', 'False', 'def', 'if', 'raise', 'None', 'del', 'import',
@@ -651,7 +652,10 @@ class PybindWrapper:
         else:
             module_var = self._gen_module_var(namespaces)
 
-            if len(namespaces) > len(self.top_module_namespaces):
+            if len(namespaces) > len(self.top_module_namespaces) and \
+                    module_var not in self._submodules:
+                # A namespace can be re-opened: create its submodule only once.
+                self._submodules.append(module_var)
                 wrapped += (
                     ' ' * 4 + 'pybind11::module {module_var} = '
                     '{parent_module_var}.def_submodule("{namespace}", "'
@@ -721,6 +725,7 @@ class PybindWrapper:
         # Instantiate all templates
         module = instantiator.instantiate_namespace(module)
 
+        self._submodules = []
         wrapped_namespace, includes = self.wrap_namespace(module)
 
         if self.use_boost_serialization:
